@@ -110,7 +110,7 @@ async def check(case, rec):
     if res.deadlock is not None:
         raise Violation(f"C19:deadlock:{view.deadlock_kind()}", f"plan {plan}\n{res.deadlock}\nlog tail {res.run.events[-8:]}")
     if res.raised is not None:
-        raise Violation("C19:raised" + (":loop" if res.shape.kind == "loop" else ""), f"{res.raised_msg}; plan {plan}; versions {res.versions}")
+        raise Violation("C19:" + view.raised_kind() + (":loop" if res.shape.kind == "loop" else ""), f"{res.raised_msg}; plan {plan}; versions {res.versions}")
     ref = shape.reference_output()
     if res.output != ref or res.output != base["output"]:
         raise Violation("C19:" + K.output_kind(res.output, ref), f"{res.output!r} != {ref!r}; plan {plan}")
@@ -120,44 +120,31 @@ async def check(case, rec):
     open_wfs = [wf.persistent_id for wf in res.recovery_wfs if any(not s.terminated for s in wf.steps.values())]
     if open_wfs:
         raise Violation("C19:recovery-workflow-not-terminated", f"recovery workflows {open_wfs} have unterminated steps")
-    # clusters of overlapping recoveries
-    spans = []
-    for e in view.recoveries:
-        x = view.exits.get(e["rid"])
-        spans.append((e["seq"], x["seq"] if x else 1 << 60, e))
-    spans.sort(key=lambda s: s[0])
-    clusters = []
-    for s in spans:
-        if clusters and s[0] < clusters[-1]["end"]:
-            clusters[-1]["end"] = max(clusters[-1]["end"], s[1])
-            clusters[-1]["recs"].append(s[2])
-        else:
-            clusters.append({"start": s[0], "end": s[1], "recs": [s[2]]})
+    # (ii) sharing: for every loss event (a deletion that destroys an output instance of job U), the
+    # recoveries that were entered before U's regeneration started and that need U form a group of
+    # *concurrent* failures needing the same lost data: until the last of them returns, U may be started
+    # once, plus once per own execute-phase failure of U and per later loss of a regenerated instance
     events = res.run.events
     shared = False
-    for c in clusters:
-        jobs_in = {e["job"] for e in c["recs"]}
-        if len(jobs_in) < 2:
-            continue
-        window = [e for e in events if c["start"] <= e["seq"] <= c["end"]]
-        starts = {}
-        for e in window:
-            if e["ev"] == "start":
-                starts[e["job"]] = starts.get(e["job"], 0) + 1
-        for job, n in starts.items():
-            needed_by = {e["job"] for e in c["recs"] if job in shape.ancestors(e["job"]) and job in view.unavailable(e["rid"])}
-            if len(needed_by) >= 2:
-                shared = True
-            own = sum(1 for e in c["recs"] if e["job"] == job and e["step"] == job.rsplit("/", 1)[0])
-            # deletions inside the window that destroyed an instance of `job` produced inside the window
-            regenerated_lost = 0
-            for d in window:
-                if d["ev"] == "delete" and job in d["lost"]:
-                    regenerated_lost += 1
-            # (ii) per loss event each producer is executed at most once more
-            if job not in jobs_in and n > 1 + regenerated_lost:
-                # two executions of the producer alive at the same time (the recoveries did not see each
-                # other) vs. a second execution after the first one had already regenerated the data
+    for d in view.deletes:
+        for job in d["lost"]:
+            later_starts = [e["seq"] for e in events if e["ev"] == "start" and e["job"] == job and e["seq"] > d["seq"]]
+            if not later_starts:
+                continue
+            t1 = later_starts[0]
+            group = [
+                e for e in view.recoveries
+                if d["seq"] < e["seq"] < t1 and job in shape.ancestors(e["job"]) and job in view.unavailable(e["rid"])
+            ]
+            if len({e["job"] for e in group}) < 2:
+                continue
+            shared = True
+            end = max((view.exits[e["rid"]]["seq"] if e["rid"] in view.exits else 1 << 60) for e in group)
+            window = [e for e in events if d["seq"] < e["seq"] <= end]
+            n = sum(1 for e in window if e["ev"] == "start" and e["job"] == job)
+            own = sum(1 for e in window if e["ev"] == "recover-enter" and e["job"] == job and e["step"] == job.rsplit("/", 1)[0])
+            relost = sum(1 for e in window if e["ev"] == "delete" and job in e["lost"])
+            if n > 1 + own + relost:
                 running = 0
                 concurrent = False
                 for e in window:
@@ -170,13 +157,10 @@ async def check(case, rec):
                         running = max(0, running - 1)
                 raise Violation(
                     "C19:producer-executed-twice-concurrently" if concurrent else "C19:producer-re-executed-after-regeneration",
-                    f"{job} started {n} times inside one cluster of overlapping recoveries {sorted(jobs_in)} with {regenerated_lost} "
-                    f"deletions of its outputs in that window; plan {plan}; window {[(e['ev'], e['job']) for e in window if e['ev'] in ('start', 'delete', 'recover-enter', 'recover-exit')]}",
-                )
-            if job in jobs_in and n > 1 + own + regenerated_lost:
-                raise Violation(
-                    "C19:failed-job-re-executed-more-than-needed",
-                    f"{job} started {n} times inside one cluster: own execute failures {own}, deletions {regenerated_lost}; plan {plan}",
+                    f"{job} lost at seq {d['seq']}; {len(group)} recoveries {[e['job'] for e in group]} were waiting for it before its "
+                    f"regeneration started; until the last of them returned it was started {n} times (own failures {own}, later "
+                    f"losses {relost}); plan {plan}; window "
+                    f"{[(e['seq'], e['ev'], e['job']) for e in window if e['ev'] in ('start', 'done', 'delete', 'recover-enter', 'recover-exit')][:60]}",
                 )
     # (iii) every failed job completes (and not more often than losses of its outputs justify)
     for job in chosen:
